@@ -11,7 +11,7 @@ from hv.ref import raw
 ID = "C15"
 RULE = ("G-sim traces (1-3 host threads, 1-4 streams, kernels that start before their launch call ends (negative raw delay), "
         "non-launch runtime calls carrying ids, driver-API launches, launches without kernel, dropped launches/kernels, 1-3 ranks, "
-        "tight equal-timestamp mode) loaded through TraceAnalysis; get_cuda_kernel_launch_stats for every rank subset, with and "
+        "tight equal-timestamp mode) loaded through TraceAnalysis; optional history of 1-3 other read-only analyses (memory bandwidth, queue length, breakdowns, ...) on the same object first; get_cuda_kernel_launch_stats for every rank subset, with and "
         "without memory events; oracle = multiset of (correlation, cpu_duration, gpu_duration, max(0, k.ts - l.ts - l.dur)) over "
         "linked pairs whose host call is cudaLaunchKernel / cudaLaunchKernelExC (+ cudaMemcpyAsync / cudaMemsetAsync when requested). "
         "Non-trivial: >= 3 pairs, >= 1 clipped (negative raw) delay and >= 1 positive delay. Distinct = hash of files + configuration.")
@@ -20,11 +20,29 @@ ASSUMPTIONS = ["well-formed regime (hv/wf.py)", "launch names as documented in t
                "pairs are those surviving the documented trimming of the trailing profiler step (hv/ref/load.py)"]
 PLAN = {"quick": {"shards": 16, "cases": 480, "timeout": 600}, "thorough": {"shards": 16, "cases": 10000, "timeout": 3000}}
 FLOORS = {"quick": {"distinct_nontrivial": 120, "pairs_judged": 2500, "clipped_delays": 600, "positive_delays": 800, "memory_pairs": 500,
-                    "calls_without_memory": 150, "multi_rank_calls": 100},
+                    "calls_without_memory": 150, "multi_rank_calls": 100, "calls_after_history": 150},
           "thorough": {"distinct_nontrivial": 2500, "pairs_judged": 50000, "clipped_delays": 12000, "positive_delays": 16000,
-                       "memory_pairs": 10000, "calls_without_memory": 3000, "multi_rank_calls": 2000}}
+                       "memory_pairs": 10000, "calls_without_memory": 3000, "multi_rank_calls": 2000, "calls_after_history": 3000}}
 KLAUNCH = {"cudaLaunchKernel", "cudaLaunchKernelExC", "runFunction - job_prep_and_submit_for_execution"}
 MLAUNCH = {"cudaMemcpyAsync", "cudaMemsetAsync"}
+PRE_CALLS = ["get_memory_bw_time_series", "get_queue_length_time_series", "get_memory_bw_summary", "get_temporal_breakdown",
+             "get_idle_time_breakdown", "get_comm_comp_overlap", "get_gpu_kernel_breakdown", "get_cuda_kernel_launch_stats"]
+
+
+def _pre_call(ta, name: str, ranks) -> None:  # noqa: ANN001
+    """Earlier analyses on the same object; their own results are judged by their own properties, here only
+    their side effects on what follows matter, so their exceptions are ignored."""
+    try:
+        if name in ("get_memory_bw_time_series", "get_queue_length_time_series", "get_memory_bw_summary"):
+            getattr(ta, name)(ranks)
+        elif name == "get_idle_time_breakdown":
+            ta.get_idle_time_breakdown(ranks=ranks, visualize=False)
+        elif name == "get_cuda_kernel_launch_stats":
+            ta.get_cuda_kernel_launch_stats(ranks=ranks, visualize=False)
+        else:
+            getattr(ta, name)(visualize=False)
+    except Exception:  # noqa: BLE001
+        pass
 
 
 def gen_case(rnd, tier: str, i: Any) -> Dict[str, Any]:
@@ -38,7 +56,9 @@ def gen_case(rnd, tier: str, i: Any) -> Dict[str, Any]:
         gen_sim.drop_events(rnd, tr, p_launch=rnd.choice([0, 0, 0.15]), p_kernel=rnd.choice([0, 0, 0.15]))
         files[f"rank{r}.json"] = tr
     ranks = sorted(rnd.sample(range(n_ranks), rnd.randint(1, n_ranks)))
-    return {"files": files, "cfg": {"ranks": ranks, "include_memory_events": rnd.random() < 0.6}}
+    # multi-step histories: other read-only analyses called on the same TraceAnalysis object before the statistics
+    pre = rnd.sample(PRE_CALLS, rnd.choice([0, 0, 1, 2, 3]))
+    return {"files": files, "cfg": {"ranks": ranks, "include_memory_events": rnd.random() < 0.6, "pre_calls": pre}}
 
 
 def run_case(case: Dict[str, Any], ctx: Any) -> core.CaseResult:
@@ -59,6 +79,11 @@ def run_case(case: Dict[str, Any], ctx: Any) -> core.CaseResult:
         ok, ta = drv.guard(res, "TraceAnalysis(load)", drv.new_analysis, d)
         if not ok:
             return res
+        for name in cfg.get("pre_calls", []):
+            _pre_call(ta, name, cfg["ranks"])
+            res.counters["pre_calls"] += 1
+        if cfg.get("pre_calls"):
+            res.counters["calls_after_history"] += 1
         ok, out = drv.guard(res, "get_cuda_kernel_launch_stats", ta.get_cuda_kernel_launch_stats, ranks=cfg["ranks"],
                             include_memory_events=cfg["include_memory_events"], visualize=False)
         if not ok:
